@@ -242,7 +242,43 @@ theorem truncation_marker (o : Opts) (W : Nat) (indent : List Char) (root : List
 
 example : (geom ⟨8, 16, 10, 3⟩ 208 11 139).stopByte ≠ (geom ⟨8, 16, 10, 3⟩ 208 11 139).lastDisplayByte := by decide
 
-/-! ### known finding -/
+/-! ### known finding `nested-root-address-truncated` -/
+
+/-- Exactly when the printed address of a row differs from the address dumpEx wrote: `colW` is the
+    address column width (`maxAddrIndentWidth`, at least `2*rootDepth + digits` for every value by
+    its definition as a maximum — the hypothesis).  The text written is `colW + rootDepth` characters
+    long, what is printed is its first `colW` characters, and the two differ iff the row belongs to a
+    nested root buffer (`rootDepth ≥ 1`): then the last `rootDepth` digits of the address are lost,
+    for EVERY row of that buffer. -/
+theorem nested_addr_truncated_iff (o : Opts) (colW rootDepth a : Nat)
+    (h : 2 * rootDepth + digitsNeeded o.addrbase a ≤ colW) :
+    (addrText o colW rootDepth a).length = colW + rootDepth
+      ∧ addrCell o colW rootDepth a = (addrText o colW rootDepth a).take colW
+      ∧ (addrCell o colW rootDepth a ≠ addrText o colW rootDepth a ↔ 1 ≤ rootDepth) := by
+  have hl := addrText_length o colW rootDepth a h
+  have hc := addrCell_eq o colW rootDepth a h
+  refine ⟨hl, hc, ?_⟩
+  rw [hc]
+  constructor
+  · intro hne
+    rcases Nat.eq_zero_or_pos rootDepth with h0 | h0
+    · exfalso; apply hne
+      exact List.take_of_length_le (by omega)
+    · exact h0
+  · intro hd heq
+    have : ((addrText o colW rootDepth a).take colW).length = colW := by
+      rw [List.length_take]; omega
+    rw [heq] at this
+    omega
+
+/-- witness (the `uncompressed` rows of `fq -d gzip dd`): column width 7, root depth 1, byte offset
+    0x10 is written as `  0x0010` and printed as `  0x001` -/
+theorem nested_addr_truncated_witness :
+    addrText ⟨16, 16, 10, 0⟩ 7 1 16 = "  0x0010".toList ∧ addrCell ⟨16, 16, 10, 0⟩ 7 1 16 = "  0x001".toList
+      ∧ 2 * 1 + digitsNeeded 16 16 ≤ 7 := by
+  decide
+
+/-! ### known finding `header-overflow` -/
 
 /-- Known finding `header-overflow`: with addrbase 2 and five bytes per line the label printed
     above column 4 reads `10` (the header is `00 01 10 11 100`, cut at the column width 14). -/
